@@ -34,13 +34,14 @@ RULE = ('files: first group = every non-empty subset (size <= 3, thorough also t
         '(group / alias x UPPER, lower, mIxEd; unknown group): every ordered selection of <= 3 distinct labels x label case, bare-string '
         'label, unknown label at every position; every value over the 6 alphabet bits plus values with undefined bits, as int and '
         'np.uint64 and (list form) as np.int64 two\'s complement scalar / 0-d array and 0-d uint64 array, list and concat; sdss_flagexist in its 4 return shapes. A case is non-trivial unless it is the empty label list or '
-        'the value 0. Distinct = distinct (file rows, query).')
+        'the value 0. history shards: every sequence X, Y, X (thorough also X, Y, Z) of 5 files (different groups / same groups with other labels and bits / subset / alias name reused as a group) loaded in ONE process, the full query set after each load against that file\'s own rows, including group and label names that only exist in other files (must be unknown). Distinct = distinct (load history, file rows, query).')
 ASSUMPTIONS = ['group, alias and label names in the file are upper-case (as in sdssMaskbits.par); case-insensitivity concerns the query',
                'labels passed to sdss_flagval are distinct (the property speaks of a set of distinct labels); one label per bit in a group',
                'values are 64-bit patterns given as Python int 0..2**64-1, np.uint64 scalar / 0-d array, or signed two\'s complement np.int64 scalar / 0-d array; negative Python ints and wider values are not generated',
                'sdss_flagname(unknown group, 0) in every value representation must return the empty list / empty string and must not raise (the property says a zero value names no bits in any group); for sdss_flagval(unknown group, []) the property is silent and both 0 and KeyError are accepted',
                'sdss_flagexist is not queried with an empty label list (its overall answer would be vacuous)',
-               'the module cache is replaced by a fresh copy of the loaded table before every query and restored at the end of the shard']
+               'the module cache is replaced by a fresh copy of the loaded table before every query and restored at the end of the shard',
+               'load histories are bounded to 3 loads over 5 files (different groups, same groups relabelled, subset, alias name reused as group); every shard runs in a fresh process and records the files it loaded before a violation so that the replay repeats them']
 
 HEADER = '''#
 # generated maskbits file (C07 check)
@@ -153,6 +154,29 @@ def files_of(task):
         yield file_rows(task['bits'], task['scheme'], task['second'], alias, order)
 
 
+def _rows(groups, aliases=()):
+    out = []
+    for g, labs in groups:
+        out.append(['masktype', g, 64])
+        out += [['maskbits', g, b, lab] for lab, b in labs]
+    return out + [['maskalias', g, a] for g, a in aliases]
+
+
+G3, ALIAS_B = 'THIRD3', 'ALIAS_B'
+# files for the load histories: A; B1 = entirely different groups; B2 = the same groups with other labels/bits and the alias
+# re-targeted; B3 = a subset of A; B4 = the former alias name as a real group
+HIST_FILES = {
+    'A': _rows([(G1, [('ZED', 0), ('M31', 31), ('TOP', 63)]), (G2, [('ZED', 7), ('TOP', 0)])], [(G1, ALIAS)]),
+    'B1': _rows([(G3, [('ZED', 1), ('OMEGA', 62)])], [(G3, ALIAS_B)]),
+    'B2': _rows([(G1, [('ZED', 5), ('NEW', 31), ('TOP', 62)]), (G2, [('ZED', 7)])], [(G2, ALIAS)]),
+    'B3': _rows([(G1, [('ZED', 0)])]),
+    'B4': _rows([(ALIAS, [('ZED', 3)]), (G2, [('TOP', 0), ('X9', 9)])]),
+}
+UNIVERSE_GROUPS = {G1, G2, ALIAS, G3, ALIAS_B}
+UNIVERSE_LABELS = (set(SCHEMES['A'].values()) | {lab for v in SECOND.values() if v for lab, _b in v}
+                   | {r[3] for rows in HIST_FILES.values() for r in rows if r[0] == 'maskbits'})
+
+
 def tasks(tier):
     T = tier == 'thorough'
     subsets = [list(c) for r in (1, 2, 3) for c in itertools.combinations(SIGMA, r)]
@@ -167,6 +191,13 @@ def tasks(tier):
         for scheme in ('A', 'B'):
             for second in ('none', 'disjoint', 'shared', 'shared3'):
                 t.append({'bits': list(SIGMA), 'scheme': scheme, 'second': second, 'thorough': T})
+    # load histories inside one process: X, Y, X (thorough also X, Y, Z) over the history files
+    names = sorted(HIST_FILES)
+    for x, y in itertools.permutations(names, 2):
+        t.append({'k': 'history', 'seq': [x, y, x], 'thorough': T})
+    if T:
+        for x, y, z in itertools.permutations(names, 3):
+            t.append({'k': 'history', 'seq': [x, y, z], 'thorough': T})
     return t
 
 
@@ -253,8 +284,22 @@ def queries(groups, alias, thorough):
                 for fe in (False, True):
                     for we in (False, True):
                         yield {'f': 'flagexist', 'group': gname, 'labels': recase(lab, 'lower'), 'fe': fe, 'we': we}
-    # --- unknown group
+    # --- names that exist in OTHER files of the bound (a previously loaded file must leave nothing behind)
     anylabel = sorted(lab for g in groups.values() for lab in g)[0]
+    for gname in sorted(UNIVERSE_GROUPS - set(groups) - set(alias)):
+        yield {'f': 'flagval', 'group': gname, 'labels': [anylabel], 'nvn': False}
+        yield {'f': 'flagname', 'group': gname, 'value': 1, 'vtype': 'int', 'concat': False}
+        yield {'f': 'flagname', 'group': gname, 'value': FULL, 'vtype': 'int', 'concat': True}
+        yield {'f': 'flagname', 'group': gname, 'value': 0, 'vtype': 'int', 'concat': False}
+        for fe in (False, True):
+            for we in (False, True):
+                yield {'f': 'flagexist', 'group': gname, 'labels': [anylabel], 'fe': fe, 'we': we}
+    for form in forms:
+        table = groups[alias.get(form, form)]
+        for lab in sorted(UNIVERSE_LABELS - set(table)):
+            yield {'f': 'flagval', 'group': form, 'labels': [lab], 'nvn': False}
+            yield {'f': 'flagexist', 'group': form, 'labels': [lab], 'fe': True, 'we': True}
+    # --- unknown group
     for gname in (NOGROUP, NOGROUP.lower(), recase(NOGROUP, 'mixed')):
         for labs in ([], [anylabel], anylabel, [anylabel, NOLABEL]):
             yield {'f': 'flagval', 'group': gname, 'labels': labs, 'nvn': False}
@@ -495,21 +540,26 @@ def run_task(task):
     saved = S.maskbits
     tmpdir = tempfile.mkdtemp(prefix='verif_c07_')
     try:
-        for rows in files_of(task):
+        history = []          # files loaded earlier in this process, needed to replay a violation faithfully
+        is_hist = task.get('k') == 'history'
+        for step, rows in enumerate([HIST_FILES[x] for x in task['seq']] if is_hist else files_of(task)):
             groups, alias = oracle_table(rows)
             loaded, exc = load_file(rows, tmpdir)
-            fkey = json.dumps(rows)
+            fkey = json.dumps([history, rows] if is_hist else rows)
+            earlier, history = list(history), history + [rows]
             if exc is not None:
-                case = {'rows': rows, 'q': None}
+                case = {'rows': rows, 'q': None, 'history': earlier}
                 acc.case((fkey, 'load'), True, 'bad:set_maskbits', sample=case)
                 acc.violation('set_maskbits:exception:%s' % type(exc).__name__, case, repr(exc))
                 continue
             for q in queries(groups, alias, task['thorough']):
                 bad, outcome = check_query(loaded, groups, alias, q)
                 trivial = (q['f'] == 'flagval' and q['labels'] == []) or (q['f'] == 'flagname' and q['value'] == 0)
+                if is_hist and outcome.startswith('ok:'):
+                    outcome = 'ok:after-%d-earlier-loads:%s' % (step, outcome.split(':')[1])
                 acc.case((fkey, json.dumps(q, sort_keys=True)), not trivial, outcome, sample={'rows': rows, 'q': q})
                 for sig, msg in bad:
-                    acc.violation(sig, {'rows': rows, 'q': q}, msg)
+                    acc.violation(sig, {'rows': rows, 'q': q, 'history': earlier}, msg)
     finally:
         S.maskbits = saved
         shutil.rmtree(tmpdir, ignore_errors=True)
@@ -522,6 +572,8 @@ def replay(case):
     saved = S.maskbits
     tmpdir = tempfile.mkdtemp(prefix='verif_c07_')
     try:
+        for old in case.get('history') or []:      # re-create the loads that preceded this file in the shard's process
+            load_file([list(r) for r in old], tmpdir)
         groups, alias = oracle_table(rows)
         loaded, exc = load_file(rows, tmpdir)
         if exc is not None:
